@@ -33,7 +33,7 @@ PROPS = {
     'C01': P('C01', [('codepair', 10000, 80000), ('lines', 600, 4800), ('inlineops', 7500, 60000), ('link', 10000, 80000), ('entity', 10000, 80000), ('url', 10000, 80000), ('smap', 300, 2400), ('block', 6000, 48000), ('inline', 5000, 40000), ('pipeline', 1500, 12000), ('pipetabs', 1000, 8000), ('html', 6000, 48000), ('blockh', 2500, 20000)], ('C01', 30000, 240000),
              "oracle: parse->render->xrender under catch_unwind on grammar/spec/mutated/adversarial/malformed documents x configuration sample (subsets, orders, max_nesting); non-trivial = contains a markdown-significant character; distinct by hash of (cfg, source)",
              ["whole-pipeline totality theorem is _partial: mechanism theorems + rule-level correspondence + oracle cover the composition",
-              "hang = wall time beyond 2 s + 1 ms/byte; stack exhaustion is covered by C02"], extra_modules=(('BlockH', r'total|fuel|noPanic|progress|conservative'), ('Html', r'no_panic|progress|overflow|link_level|tagMatch_spec|tagRest'), 'TotalTabs', 'MemoSafe', 'InlineTotal', 'BlockTotal', ('DocTotal', r'panic_inline_only|parseDoc_blocks_ok'), ('EmphDepthDoc', r'doc_full_depth_bounded'), 'GenC17', 'GenC02', ('Pipeline', r'parseDoc_panic|renderDoc_panic|doc_render_total|spliceNode_panic|sourceposNode_total'), ('Block', r'progress|tokenize_spec|ruleAt'), ('Inline', r'progress|fuel|contracts'),)),
+              "hang = wall time beyond 2 s + 1 ms/byte; stack exhaustion is covered by C02"], extra_modules=(('BlockH', r'total|fuel|noPanic|progress|conservative'), ('Html', r'no_panic|progress|overflow|link_level|tagMatch_spec|tagRest'), 'GenHtml', 'TotalTabs', 'MemoSafe', 'InlineTotal', 'BlockTotal', ('DocTotal', r'panic_inline_only|parseDoc_blocks_ok'), ('EmphDepthDoc', r'doc_full_depth_bounded'), 'GenC17', 'GenC02', ('Pipeline', r'parseDoc_panic|renderDoc_panic|doc_render_total|spliceNode_panic|sourceposNode_total'), ('Block', r'progress|tokenize_spec|ruleAt'), ('Inline', r'progress|fuel|contracts'),)),
     'C02': P('C02', [('nest', 4500, 36000), ('block', 3000, 24000), ('inline', 2500, 20000), ('pipeline', 1500, 12000)], ('C02', 3000, 20000),
              "oracle: 16 nesting families x sizes up to the budget x max_nesting in {0,1,3,10,100}; recursion gauge (hook) and tree depth compared with 4*max_nesting+16; non-trivial = size >= 150",
              ["actual stack exhaustion is a runtime fact; the model bounds frames and depth, the oracle observes the gauge on a 3 GiB-stack thread"], extra_modules=('EmphDepth', 'EmphDepthDoc', 'C02Doc', 'GenC02',)),
@@ -78,7 +78,7 @@ PROPS = {
              [], extra_modules=(('Pipeline', r'doc_sourcepos_spec|sourceposAttrs_eq|sourceposNode_total'),)),
     'C16': P('C16', [('codepair', 15000, 120000), ('block', 6000, 48000), ('inline', 5000, 40000), ('html', 6000, 48000), ('blockh', 2500, 20000)], ('C16', 12500, 100000),
              "oracle: dual-run look-ahead probe (hook) over all generators x configurations (+ custom rules), HTML with probe on = HTML with probe off, custom block rule in both look-ahead styles after every predecessor kind",
-             [], extra_modules=('C16Doc', ('BlockH', r'silent|true_real'), ('Html', r'silent'), ('Block', r'silent|testRules|real_false'), ('Inline', r'silent|skip|memo|ruleEmph'),)),
+             [], extra_modules=('C16Doc', 'GenHtml', ('BlockH', r'silent|true_real'), ('Html', r'silent'), ('Block', r'silent|testRules|real_false'), ('Inline', r'silent|skip|memo|ruleEmph'),)),
     'C17': P('C17', [('url', 20000, 160000)], ('C17', 20000, 160000),
              "url stream: byte strings biased to '%' near the end, hex/non-hex after '%', bytes >= 0x80, 8 safe-set families, both modes; non-trivial = contains a byte >= 0x80 or a '%' within the last three bytes; distinct by hash of the request line",
              ["bytes are modelled as Nat < 256 (hypothesis `Bytes bs`)",
